@@ -1202,7 +1202,8 @@ PROPS = {
              " Before the listener is queried, two connections that send nothing and one that sends half a request line are opened to it and kept: the scrape, the health check and the unknown path must still be answered (2 s)"
              " The direct-forwarder flow suite of C07 (c07, with the restarting destination) runs here too"
              " Ten bursts of three datagrams towards an HTTP/1.1 _udp2 client (its datagram sink holds one, the rest is dropped): the peer -> client counter of http1 equals the payload bytes of the 6.4 records the client was actually sent"
-             " The same bursts with 30 KB datagrams towards an HTTP/2 client (the stream's send window cannot take three at once)",
+             " The same bursts with 30 KB datagrams towards an HTTP/2 client (the stream's send window cannot take three at once)"
+             " The real listener is also asked for /metrics?format=prometheus and /health-check?probe=1: a query string does not change the resource (200 both)",
         explanation="theorems cells_equal_objects, gauges_nonneg, all_clients_gone_sessions_udp_zero, all_clients_gone_everything_zero, "
                     "refused_connect_balanced, hanging_connect_released_by_timeout, counters_monotone, up_adds_exactly, "
                     "down_adds_exactly, no_relay_no_bytes, half_closed_tunnel_released_when_both_ended, icmp_counts_only_relayed, udp_bytes_follow_multiplexer, documented_series, documented_paths about "
